@@ -97,7 +97,8 @@ def wellformed(p):
             if raw.dtype.fields[k][0] != p.dtype:
                 bad.append(f"raw field dtype {raw.dtype.fields[k][0]} != {p.dtype}")
         if not bad and p.size:
-            if alpha_raw(p) != alpha(p):
+            ar, aa = alpha_raw(p), alpha(p)
+            if ar != aa and not _same_allowing_nan(ar, aa):
                 bad.append("alpha_raw != alpha")
     except Exception as err:  # noqa: BLE001
         bad.append(f"attribute access raised {type(err).__name__}: {err}")
@@ -226,9 +227,20 @@ def build(sp):
     return out
 
 
+def _same_allowing_nan(a, b):
+    """V == V with nan taken equal to nan (specs with nan coefficients cannot be compared through the exact model)"""
+    if a.shape != b.shape or set(a.t) != set(b.t):
+        return False
+    for m in a.t:
+        x, y = numpy.asarray(a.t[m], dtype=object).ravel().tolist(), numpy.asarray(b.t[m], dtype=object).ravel().tolist()
+        if len(x) != len(y) or any(not (u == v or (u != u and v != v)) for u, v in zip(x, y)):
+            return False
+    return True
+
+
 def build_checked(sp):
     p = build(sp)
-    if alpha_raw(p) != model_of(sp):
+    if alpha_raw(p) != model_of(sp) and not _same_allowing_nan(alpha_raw(p), model_of(sp)):
         raise RuntimeError(f"HARNESS: trusted builder produced a different value for {sp}")
     return p
 
